@@ -16,6 +16,12 @@ def claim(pid, technique, text, note, ref):
 def na(pid, reason):
     NA[pid] = reason
 
+def also(pid, text, technique=None):
+    """rules added after the first complete pass: appended to the level text (and technique)"""
+    CLAIMS[pid]["text"] += " Also decided: " + text
+    if technique:
+        CLAIMS[pid]["technique"] += "; " + technique
+
 exec(open(os.path.join(os.path.dirname(__file__), "claims.py")).read())
 
 checks = []
